@@ -69,8 +69,11 @@ PoolMixed ==
                          TUx([NoTD EXCEPT !.id = Some(2), !.route = Some(1)], Some(VDid(4)), <<StuN(Some(16), Some(5), None, None)>>),
                          [k |-> "al", id |-> 1, periods |-> <<>>, sels |-> <<[NoSel EXCEPT !.trip = Some([NoTD EXCEPT !.id = Some(2)])]>>,
                           cause |-> None, effect |-> None, header |-> <<>>, desc |-> <<>>, url |-> <<>>],
-                         TUx([NoTD EXCEPT !.id = Some(2064650), !.nyct = Nyct(None, Some(FALSE), Some(1))], None, <<StuN(Some(19), Some(5), None, None)>>)
-                       >>, a, b)) : a \in 1..5, b \in 1..5}
+                         TUx([NoTD EXCEPT !.id = Some(2064650), !.nyct = Nyct(None, Some(FALSE), Some(1))], None, <<StuN(Some(19), Some(5), None, None)>>),
+                         VPx(None, Some(VDid(5))),                       \* a plain vehicle right after a trip the stale filter drops
+                         TUx([NoTD EXCEPT !.id = Some(1070000), !.route = Some(1), !.nyct = Nyct(Some(2), Some(TRUE), Some(1))], None,
+                             <<StuN(Some(3), Some(7), None, None)>>)     \* a second assigned trip on the train of the first one
+                       >>, a, b)) : a \in 1..7, b \in 1..7}
 
 Msgs == CASE Pool = "stale" -> PoolStale [] Pool = "desc" -> PoolDesc [] Pool = "swap" -> PoolSwap
           [] Pool = "track" -> PoolTrack [] Pool = "mixed" -> PoolMixed
